@@ -14,10 +14,11 @@
 // meaning-preserving, everything else is left alone (the call stays, the translator refuses, the check reports the
 // tie as broken — the safe direction):
 //
-//	I1  arguments that are identifiers, literals, `nil`, or `&ident` are substituted for the parameter (the callee
-//	    cannot assign to the caller's locals); any other argument is bound to a fresh local `pInlN := arg` first, in
-//	    parameter order (Go evaluates arguments left to right before the call).  A parameter the helper assigns to is
-//	    always bound.
+//	I1  arguments that are identifiers, literals, `nil`, `&ident`, or the empty slice literal `[]T{}` (a value without
+//	    elements or capacity: evaluating it once or several times is indistinguishable) are substituted for the
+//	    parameter (the callee cannot assign to the caller's locals); any other argument is bound to a fresh local
+//	    `pInlN := arg` first, in parameter order (Go evaluates arguments left to right before the call).  A parameter
+//	    the helper assigns to is always bound.
 //	I2  locals of the helper are renamed to fresh names (`xInlN`), so nothing is captured.
 //	I3  a helper whose body is the single statement `return E` is an EXPRESSION helper and may be called anywhere in an
 //	    expression, provided every parameter that is not substituted by I1 occurs exactly once in E and at most one
@@ -337,6 +338,12 @@ func trivialArg(e ast.Expr) bool {
 		return true
 	case *ast.ParenExpr:
 		return trivialArg(x.X)
+	case *ast.CompositeLit:
+		// `[]T{}`: no elements, no capacity, not nil — no two evaluations of it can be told apart
+		if at, ok := x.Type.(*ast.ArrayType); ok && at.Len == nil && len(x.Elts) == 0 {
+			_, named := at.Elt.(*ast.Ident)
+			return named
+		}
 	case *ast.UnaryExpr:
 		if x.Op == token.AND || x.Op == token.SUB {
 			_, id := x.X.(*ast.Ident)
@@ -513,6 +520,9 @@ func (in *inliner) instantiate(h *helper, recv ast.Expr, args []ast.Expr, keep, 
 						return c
 					}
 					if _, atom := c.(*ast.BasicLit); atom {
+						return c
+					}
+					if _, atom := c.(*ast.CompositeLit); atom {
 						return c
 					}
 					return &ast.ParenExpr{X: c}
